@@ -49,6 +49,9 @@ type Script struct {
 	// Restart: after the final quiescence one more future (index N-1, delay RestartDelay) is scheduled
 	Restart      bool
 	RestartDelay time.Duration
+	// MaxLate > 0: the judge also bounds how late an uncancelled future may start (scripts whose callbacks return at once,
+	// explored without clock deviations)
+	MaxLate time.Duration
 }
 
 func (s Script) String() string {
